@@ -31,6 +31,10 @@ pub struct Case {
     /// bit k: the k-th installed command file is a symbolic link to the real script
     #[serde(default)]
     pub symlinks: u32,
+    /// bit k: the k-th installed executable leaves a silent background process behind that
+    /// keeps its stdout/stderr open for 1.2-2.2 s after it has exited
+    #[serde(default)]
+    pub lingers: u32,
 }
 
 pub const DELAY_POINTS: [&str; 8] = [
@@ -54,9 +58,9 @@ pub fn strategy() -> impl Strategy<Value = Case> {
         vec(0u64..40, 24),
         vec((0usize..DELAY_POINTS.len(), 0u64..60), 0..=3),
         0u8..4,
-        prop_oneof![1 => Just(0u32), 1 => any::<u32>()],
+        (prop_oneof![1 => Just(0u32), 1 => any::<u32>()], prop_oneof![3 => Just(0u32), 1 => any::<u32>().prop_map(|x| x & 0x0421_0842)]),
     )
-        .prop_map(|(layers, picks, ncmd, rfaults, fou, rnd, rdelays, sleep_mode, symlinks)| {
+        .prop_map(|(layers, picks, ncmd, rfaults, fou, rnd, rdelays, sleep_mode, (symlinks, lingers))| {
             let config = gen::layered_config(&layers, &picks);
             let n = config.targets.len();
             let commands: Vec<String> = (0..ncmd).map(|i| format!("c{}", i)).collect();
@@ -98,6 +102,7 @@ pub fn strategy() -> impl Strategy<Value = Case> {
                 sleeps,
                 delays,
                 symlinks,
+                lingers,
             }
         })
 }
@@ -147,6 +152,7 @@ pub fn check(case: &Case, w: usize) -> CheckResult {
                     Some(Fault::Signal(s)) => Some(*s),
                     _ => None,
                 },
+                linger_ms: if case.lingers >> (nth % 32) & 1 == 1 { 1200 + (*ms * 25) % 1000 } else { 0 },
                 sleep_ms: *ms,
                 out: vec![bb::Step::W(format!("out {} {}\n", c, t).into_bytes())],
                 ..Default::default()
@@ -405,6 +411,7 @@ pub fn check(case: &Case, w: usize) -> CheckResult {
         .class_if(!case.delays.is_empty(), "internal-delays")
         .class_if(case.fail_on_undefined, "fail-on-undefined")
         .class_if(case.symlinks != 0, "symlinked-command-files")
+        .class_if(case.lingers != 0, "background-process-keeps-the-pipes-open")
         .class(&format!("groups={}", ngroups.min(4)))
         .inv(env.invocations);
     for f in &case.faults {
@@ -440,6 +447,7 @@ pub fn sweep_cases() -> Vec<Case> {
                     sleeps,
                     delays: vec![(p.to_string(), d)],
                     symlinks: 0,
+                    lingers: 0,
                 });
             }
         }
@@ -483,6 +491,7 @@ pub fn strategy_wide(max_n: usize) -> impl Strategy<Value = Case> {
                 sleeps,
                 delays: vec![],
                 symlinks: 0,
+                lingers: 0,
             }
         })
 }
